@@ -310,6 +310,7 @@ func checkC14(c *lib.Ctx) {
 	r := c.R
 	r.Rule = "pipelines of d = 1…24 READ/WRITE requests on h = 1…4 handles (read-only, write-only and read-write opens; layouts: all CLOSEs at the end, handle by handle, shuffled) followed by the CLOSEs without waiting for any reply, on both servers. Gated cases: every ReadAt/WriteAt is held; after the expected calls have started and a grace period of 25 ms the harness asserts that no Close was entered, then lets the calls return in a chosen order (all feasible orders for d <= 4 (quick) / 6 (thorough), PRNG orders: uniform, fifo, lifo, earliest-held-longest). Unforced cases: nothing is held, every call (Close too) sleeps a PRNG time below 1.5 ms, or not at all. Oracles on the global start/finish log: 0 earlier reads/writes in flight at every Close entry, none starts later, every request succeeds, final contents. non-trivial = at least one read/write precedes a CLOSE (always); distinct by (server, program, order or sleep seed)"
 	thorough := c.Tier == "thorough"
+	c02Cfg = gCurCfg(c, "pipe", c02Cfg)
 	modelOK := gProbeModel(c, "c14.check "+c02Cfg+" -")
 	if !modelOK {
 		r.Skip("model comparison skipped: driver ops `c14.check` / `c14.handled` (lean/Sftp/Driver/C02.lean) are not served by the driver binary given with --model")
